@@ -267,6 +267,8 @@ func checkC09Dyn(c *c09DynCase) (msg string, nontrivial bool) {
 			k = gk{kind: "text", txt: x}
 		case bool:
 			k = gk{kind: "bool", txt: fmt.Sprint(x)}
+		case nil:
+			k = gk{kind: "null"} // null or missing: not the empty text
 		default:
 			return "", false
 		}
@@ -301,7 +303,7 @@ func checkC09Dyn(c *c09DynCase) (msg string, nontrivial bool) {
 
 func TestC09DynamicGroups(t *testing.T) {
 	rapid.Check(t, func(rt *rapid.T) {
-		vals := []string{`1`, `1.0`, `"1"`, `2`, `"2"`, `2.5`, `"2.5"`, `true`, `"true"`, `false`, `"b"`, `""`, `0`, `"0"`, `0.1234561`, `0.1234562`}
+		vals := []string{`1`, `1.0`, `"1"`, `2`, `"2"`, `2.5`, `"2.5"`, `true`, `"true"`, `false`, `"b"`, `""`, `0`, `"0"`, `0.1234561`, `0.1234562`, `null`}
 		n := rapid.IntRange(2, 9).Draw(rt, "n")
 		pairs := make([]lib.Pair, n)
 		for i := range pairs {
